@@ -54,7 +54,8 @@ ASSUMPTIONS = [
 ]
 BOUNDS = {
     'quick': {'updates': [1, 2], 'num_bits/block_size': 'unbounded integers'},
-    'thorough': {'updates': [1, 2, 3], 'num_bits/block_size': 'unbounded'},
+    'thorough': {'updates': [1, 2, 3], 'num_bits/block_size': 'unbounded',
+                 'configs in histories of 3': '4 of the 6 concrete configs'},
 }
 REACH = {'rt': ['exported']}
 T = qtyping.TensorQuantizationConfig
@@ -131,11 +132,18 @@ CONCRETE_CFGS = [
 ]
 
 
-def sym_op_cfg(e, name, symbolic_fields=True):
+CFG_IDS_3 = [0, 2, 3, 4]  # histories of 3 updates: 4 of the 6 configs
+
+
+def sym_op_cfg(e, name, symbolic_fields=True, ids=None, pin=None):
   """A symbolic OpQuantizationConfig or None (default)."""
   if not symbolic_fields:
-    return SymTok.fresh(f'{name}_cfgid', list(range(len(CONCRETE_CFGS)))
-                        ).concrete_index(CONCRETE_CFGS)
+    tok = SymTok.fresh(f'{name}_cfgid', list(range(len(CONCRETE_CFGS))))
+    if ids is not None:
+      e.assume(z3.Or(*[tok.z == i for i in ids]))
+    if pin is not None:
+      e.assume(tok.z == pin)
+    return tok.concrete_index(CONCRETE_CFGS)
   shape = SymTok.fresh(f'{name}_shape', ['none', 'default', 'w', 'aw']).concrete()
   if shape == 'none':
     return None
@@ -172,11 +180,14 @@ def make_harness(n, fix=None):
       toks = [SymTok.fresh(f'u{i}_regex', REGEXES),
               SymTok.fresh(f'u{i}_op', OPS), SymTok.fresh(f'u{i}_alg', ALGS)]
       if i == 0 and fix is not None:  # work split over the first update
-        for t, v in zip(toks, fix):
+        for t, v in zip(toks, fix[:3]):
           e.assume(t.z == v)
       regex, op, alg = [t.concrete() for t in toks]
       try:
-        cfg = sym_op_cfg(e, f'u{i}', symbolic_fields=(n == 1))
+        cfg = sym_op_cfg(e, f'u{i}', symbolic_fields=(n == 1),
+                         ids=CFG_IDS_3 if n >= 3 else None,
+                         pin=fix[3] if i == 0 and fix is not None
+                         and len(fix) > 3 else None)
       except ValueError:
         raise _Skip()
       try:
@@ -242,8 +253,7 @@ def _to_candidate(tag, v):
 
 def job_rt(job):
   n = job.args['n']
-  en = Engine(solver_timeout_ms=20000, max_paths=300000, wall_budget_s=1500,
-              )
+  en = Engine(solver_timeout_ms=20000, max_paths=300000, wall_budget_s=3000)
   harness = make_harness(n, job.args.get('fix'))
 
   def h(e):
@@ -314,8 +324,10 @@ def jobs(tier, seed):
     if n == 1:
       js.append(Job('rt:1', job_rt, {'n': 1}))
     else:
-      for fx in itertools.product(range(len(REGEXES)), range(len(OPS)),
-                                  range(len(ALGS))):
+      dims = [range(len(REGEXES)), range(len(OPS)), range(len(ALGS))]
+      if n >= 3:
+        dims.append(CFG_IDS_3)
+      for fx in itertools.product(*dims):
         js.append(Job(f'rt:{n}:shard' + '.'.join(map(str, fx)), job_rt,
                       {'n': n, 'fix': list(fx)}))
   return js
